@@ -885,6 +885,8 @@ def parity_slice(fm):
     for cc in (0, 1):
         if cond == cmp_('Eq', ('mod', lv, ('const', 2)), ('const', cc)):
             c = cc
+        if cond == not_(cmp_('Eq', ('mod', lv, ('const', 2)), ('const', cc))):
+            c = 1 - cc                      # an index is odd exactly when it is not even
     if c is None:
         return None
     srcs = {x for x in walk(elt) if x[0] == 'idx' and x[2] == lv}
